@@ -189,6 +189,8 @@ func checkC05(c *Ctx) {
 	ruleCS(c)
 	ruleLeafKind(c)
 	ruleLinkDeactivate(c)
+	ruleDeactivateRange(c)
+	ruleUnparsedReuse(c)
 	c.Assume("delimiter-stack dependent clauses (no unparsed node remains, no link contains a link), numeric accessor ranges and wrap's slicing of existing children are not decided")
 }
 
@@ -916,6 +918,51 @@ func ruleLeafKind(c *Ctx) {
 			}
 		}
 	}
+	// every other leaf addLineText creates (constant kind): allowed under the container kinds for which it is reachable
+	if fn != nil && fn.Blocks != nil {
+		bk := func(n string) int64 { v, _ := kindValue(p, "BlockKind", n); return v }
+		ik := func(n string) int64 { v, _ := kindValue(p, "InlineKind", n); return v }
+		isSym := func(v ssa.Value) bool {
+			cl, ok := v.(*ssa.Call)
+			return ok && cl.Call.StaticCallee() != nil && cl.Call.StaticCallee().Name() == "ContainerKind"
+		}
+		allowed := map[int64]map[int64]bool{
+			bk("IndentedCodeBlockKind"): {ik("TextKind"): true, ik("IndentKind"): true, ik("SoftLineBreakKind"): true},
+			bk("FencedCodeBlockKind"):   {ik("TextKind"): true, ik("IndentKind"): true, ik("SoftLineBreakKind"): true},
+			bk("HTMLBlockKind"):         {ik("RawHTMLKind"): true, ik("IndentKind"): true},
+			bk("ParagraphKind"):         {ik("UnparsedKind"): true, ik("IndentKind"): true},
+			bk("ATXHeadingKind"):        {ik("UnparsedKind"): true, ik("IndentKind"): true},
+			bk("SetextHeadingKind"):     {ik("UnparsedKind"): true, ik("IndentKind"): true},
+		}
+		bs := newBSET(p)
+		dom, _ := bs.domainFor(p.NamedType("BlockKind"))
+		reach := bs.reachUnderSym(fn, isSym, dom)
+		na := 0
+		eachInstr(fn, func(in ssa.Instruction) {
+			al, ok := in.(*ssa.Alloc)
+			if !ok || typeName(deref(al.Type())) != "Inline" {
+				return
+			}
+			ks := allocKindValues(al)
+			if len(ks) != 1 {
+				return
+			}
+			k, isC := constInt(ks[0])
+			if !isC {
+				return
+			}
+			na++
+			var bad []string
+			for d := range reach[al.Block()] {
+				if set, ok := allowed[d]; ok && !set[k] {
+					bad = append(bad, blockKindName(p, d))
+				}
+			}
+			sort.Strings(bad)
+			c.Check(len(bad) == 0, "LEAFKIND", fmt.Sprintf("addLineText:%s#%d", inlineKindName(p, k), na), al.Pos(),
+				fmt.Sprintf("a %s leaf is added to blocks whose documented children do not include it: %s", inlineKindName(p, k), strings.Join(bad, ", ")))
+		})
+	}
 	// CollectInline call sites
 	compat := map[string]string{"OpenHeadingBlock": "UnparsedKind", "OpenFencedCodeBlock": "InfoStringKind", "OpenHTMLBlock": "RawHTMLKind"}
 	n := 0
@@ -1071,6 +1118,12 @@ func phiValuesUnder(bs *bsetEngine, fn *ssa.Function, isSym func(ssa.Value) bool
 
 func init() {
 	addControls(
+		Control{Name: "neg-deactivation-index-loop", Props: []string{"C05", "C04"}, File: "inlines.go", Negative: true,
+			Old: "\t\tfor i := range state.stack[:openDelimIndex] {", New: "\t\tfor i := 0; i < openDelimIndex; i++ {"},
+		Control{Name: "neg-eof-softbreak-condition-with-local", Props: []string{"C05"}, File: "parse.go", Negative: true,
+			Old: "\tif p.ContainerKind().IsCode() && !hasByteSuffix(p.line, \"\\n\") && !hasByteSuffix(p.line, \"\\r\") {", New: "\tif k := p.ContainerKind(); k.IsCode() && !(hasByteSuffix(p.line, \"\\n\") || hasByteSuffix(p.line, \"\\r\")) {"},
+		Control{Name: "neg-indent-reuse-as-if-chain", Props: []string{"C05"}, File: "inlines.go", Negative: true,
+			Old: "\t\tdefault:\n\t\t\tstate.ignoreNextIndent = false\n\t\t\tdummy.children = append(dummy.children, state.unparsed[state.unparsedPos])\n\t\t}", New: "\t\tdefault:\n\t\t\tstate.ignoreNextIndent = false\n\t\t\tif n := state.unparsed[state.unparsedPos]; n.Kind() != UnparsedKind {\n\t\t\t\tdummy.children = append(dummy.children, n)\n\t\t\t}\n\t\t}"},
 		Control{Name: "definition-children-swapped", Props: []string{"C05"}, File: "blocks.go",
 			Old: "\t\tnewBlock.inlineChildren = append(newBlock.inlineChildren, labelInline)\n", New: "",
 			Edits: [][2]string{{"\t\tnewBlock.inlineChildren = append(newBlock.inlineChildren, destinationInline)\n", "\t\tnewBlock.inlineChildren = append(newBlock.inlineChildren, destinationInline)\n\t\tnewBlock.inlineChildren = append(newBlock.inlineChildren, labelInline)\n"}}, Expect: "CS/onCloseParagraph:LinkReferenceDefinition"},
